@@ -565,6 +565,9 @@ def main(argv):
             "traces_validated_against_impl": total_cases,
             "evaluations": total_cases, "distinct_nontrivial": total_distinct,
             "rule": cfg.get("rule", ""), "protocol_lines_compared": total_lines,
+            "streams": [{"stream": r["stream"], "seed": r["seed"], "cases": (r.get("report") or {}).get("cases"),
+                         "lines": r.get("lines"), "wall_s": round(r.get("wall_s", 0), 2),
+                         "oracle": ((r.get("report") or {}).get("oracle") or "")[:600]} for r in runs],
             "divergences": len(divergences), "oracle_violations": len(violations),
             "differences_outside_every_property_domain": [o for r in runs for o in r.get("outside_domain", [])][:10],
             "known_findings_hit": known_hit, "input_distribution": stats,
